@@ -87,15 +87,27 @@ NUMPY_EXPRS = [
 ]
 
 
-def gen_times(r, n=None, start=None):
+# decimal increments: sums and differences of such times are NOT exactly representable (binary64 stream)
+FINCS = [0.1, 0.1, 0.2, 0.3, 0.05, 0.7, 1.1, 2.5, 1e-3, 1.0 / 3.0, 0.01, 17.3, 1e-6, 123.456]
+FLOAT_EXPRS = [
+    "numpy.arange(0.1, 1.0, 0.1)", "numpy.linspace(0.1, 2.3, 7)", "numpy.logspace(-3, 2, 6)",
+    "numpy.arange(1, 20) / 10", "numpy.cumsum(numpy.full(8, 0.1))", "numpy.linspace(0.3, 0.9, 4)",
+]
+
+
+def gen_times(r, n=None, start=None, incs=None):
+    incs = incs or INCS
     n = n or r.choice([1, 1, 2, 2, 3, 3, 4, 5, 6, 8, 12])
     if start is None:
-        start = r.choice([0.0, 0.0, 0.0, -1.0, 0.5, 2.0, -0.125, r.randrange(-40, 41) / 8.0])
+        if incs is INCS:
+            start = r.choice([0.0, 0.0, 0.0, -1.0, 0.5, 2.0, -0.125, r.randrange(-40, 41) / 8.0])
+        else:
+            start = r.choice([0.0, 0.0, 0.05, -0.1, 0.3, 1e-3, -2.7, r.uniform(-5, 5)])
     ts, t = [], start
     for _ in range(n):
-        t = t + r.choice(INCS)
+        t = t + r.choice(incs) * (1 if incs is INCS else r.choice([1, 1, 1, 2, 3]))
         if not ts and t == 0.0:
-            t = t + r.choice(INCS)
+            t = t + r.choice(incs)
         ts.append(t)
     return ts, start
 
@@ -134,13 +146,16 @@ def gen_valid_case(r, force=None):
     c = dict(form=form, nd=force.get("nd", r.random() < 0.5), ops=[], history=force.get("history") or r.choice(HISTORIES),
              wgroup=r.choice(WGROUPS), rows=r.choice([1, 2, 3]), cols=r.choice([1, 2, 4]),
              entry=force.get("entry") or gen_entry(r), detector=r.choices(DETECTORS, [70, 10, 10, 10])[0])
+    incs = FINCS if force.get("float") else INCS
+    if force.get("float"):
+        c["float"] = True       # judged with the binary64 closed form of the clock (Model/ExposureF.v)
     if form == "numpy_str":
-        expr = r.choice(NUMPY_EXPRS)
+        expr = r.choice(FLOAT_EXPRS if force.get("float") else NUMPY_EXPRS)
         ts = numpy_values(expr)
-        start = ts[0] - r.choice(INCS)
+        start = ts[0] - r.choice(incs)
         c["expr"] = expr
     elif form == "scalar":
-        ts, start = gen_times(r, n=1)
+        ts, start = gen_times(r, n=1, incs=incs)
     elif form == "intlist":
         start = float(r.randrange(-5, 6))
         ts, t = [], start
@@ -150,7 +165,7 @@ def gen_valid_case(r, force=None):
                 t += 1.0
             ts.append(t)
     else:
-        ts, start = gen_times(r, n=force.get("n"))
+        ts, start = gen_times(r, n=force.get("n"), incs=incs)
     c["times"], c["start"] = [hx(t) for t in ts], hx(start)
     cur_ts, cur_start = ts, start
     nops = force.get("nops", r.choices([0, 1, 2, 3], [55, 25, 12, 8])[0])
@@ -160,19 +175,22 @@ def gen_valid_case(r, force=None):
         if k in ("set_nd", "replace_nd"):
             c["ops"].append([k, r.random() < 0.5])
         elif k in ("set_times", "replace_times"):
-            nts, _ = gen_times(r, start=cur_start)
+            nts, _ = gen_times(r, start=cur_start, incs=incs)
             f = "list" if k == "replace_times" else r.choice(["list", "list", "tuple", "ndarray", "scalar"])
             if f == "scalar":
                 nts = nts[:1]
             c["ops"].append([k, dict(form=f, times=[hx(t) for t in nts])])
             cur_ts = nts
         else:
-            ns = cur_ts[0] - r.choice(INCS)
+            ns = cur_ts[0] - r.choice(incs)
             c["ops"].append([k, hx(ns)])
             cur_start = ns
     fin_ts, fin_start, _ = intended_final(c)
     c["plan"] = gen_plan(r, len(fin_ts))
-    if not all_exact(c):
+    if force.get("float"):
+        if not all(sched_class(*x) is None for x in intended_all(c)):
+            return gen_valid_case(r, force)
+    elif not all_exact(c):
         return gen_valid_case(r, force)
     return c
 
@@ -453,7 +471,7 @@ def gen_observations(r, n_random: int):
     return out
 
 
-def gen_cases(ctx: Ctx, n_valid: int, mal_reps: int, n_sessions: int = 0, n_observations: int = 0):
+def gen_cases(ctx: Ctx, n_valid: int, mal_reps: int, n_sessions: int = 0, n_observations: int = 0, n_float: int = 0):
     r = ctx.rng("cases")
     cases = []
     # every (history, mode) pair with a multi-step pixel-accumulating plan: the leak / flag mutations
@@ -479,6 +497,13 @@ def gen_cases(ctx: Ctx, n_valid: int, mal_reps: int, n_sessions: int = 0, n_obse
     cases += gen_malformed_cases(r, mal_reps)
     cases += gen_sessions(ctx.rng("sessions"), n_sessions)
     cases += gen_observations(ctx.rng("observations"), n_observations)
+    rf = ctx.rng("binary64")
+    for k in range(n_float):
+        # no text files here: pandas' default decimal parser is not round-trip exact (1 ulp off on long decimals),
+        # which is the file reader's business, not the clock's
+        form = ["list", "tuple", "numpy_str", "file_npy", "ndarray", "scalar"][k % 6] if k < 12 else \
+            rf.choice(["list", "list", "tuple", "numpy_str", "file_npy", "ndarray", "scalar"])
+        cases.append(gen_valid_case(rf, dict(form=form, float=True)))
     return cases
 
 
@@ -567,13 +592,17 @@ def emit_case(c, o) -> str:
             f"k_d0 := {cdet(o['d0'])}; k_rp0 := {crp(o.get('rp0'))}; k_plan := {plan}; k_obs := {obs} |}}")
 
 
-def emit_file(pairs) -> str:
+def emit_file(pairs, binary64=False) -> str:
+    """binary64: the cases are judged with the binary64 closed form of the clock (steps and absolute time rounded to
+    nearest-even, Model/ExposureF.v) instead of the exact rational one."""
     body = ";\n  ".join(emit_case(c, o) for c, o in pairs)
-    return ("From Coq Require Import QArith ZArith List.\nFrom PyxelV Require Import Model.Exposure.\n"
+    sfx = "_f" if binary64 else ""
+    return ("From Coq Require Import QArith ZArith List.\nFrom PyxelV Require Import Model.Exposure"
+            + (" Model.ExposureF" if binary64 else "") + ".\n"
             "From PyxelGen Require Import Gen_C02.\nImport ListNotations.\n"
             f"Definition cases : list c02_case := [\n  {body}\n].\n"
-            "Eval vm_compute in mismatches src_guards src_empty src_set_readout cases.\n"
-            "Eval vm_compute in violations cases.\n")
+            f"Eval vm_compute in mismatches{sfx} src_guards src_empty src_set_readout cases.\n"
+            f"Eval vm_compute in violations{sfx} cases.\n")
 
 
 # ------------------------------------------------------------------------------------------ classification
@@ -741,14 +770,18 @@ def evaluate(ctx: Ctx, cases, tag="c", count=True):
                 add_pair(dict(runs[j], pre=runs[:j], **common), oj)
         else:
             add_pair(c, o)
-    files = {}
-    for k in range(0, len(pairs), PER_FILE):
-        files[f"{tag}_{k // PER_FILE:03d}"] = emit_file(pairs[k:k + PER_FILE])
+    files, chunks = {}, {}
+    for binary64, sub in ((False, [p for p in pairs if not p[0].get("float")]),
+                          (True, [p for p in pairs if p[0].get("float")])):
+        for k in range(0, len(sub), PER_FILE):
+            name = f"{tag}{'f' if binary64 else ''}_{k // PER_FILE:03d}"
+            files[name] = emit_file(sub[k:k + PER_FILE], binary64)
+            chunks[name] = sub[k:k + PER_FILE]
     res = core.coq_eval_many(ctx, files, timeout=600, par=8)
     mism, viol = [], []
-    for k, name in enumerate(sorted(files)):
+    for name in sorted(files):
         ok, evals, se = res[name]
-        chunk = pairs[k * PER_FILE:(k + 1) * PER_FILE]
+        chunk = chunks[name]
         if not ok or len(evals) != 2:
             ctx.broken.append(Broken("correspondence", f"case file {name}.v did not evaluate", core.tail(se, 15)))
             continue
@@ -768,6 +801,7 @@ def evaluate(ctx: Ctx, cases, tag="c", count=True):
             ctx.dist("readouts", len(intended_final(c)[0]))
             ctx.dist("ops", len(eff(c).get("ops", [])))
             ctx.dist("malformed", c.get("malformed", "-"))
+            ctx.dist("arithmetic", "binary64_rounded" if c.get("float") else "exact_dyadic")
             ctx.dist("entry", c.get("entry", "run_mode"))
             if c.get("sweep"):
                 ctx.dist("observation_sweep", f"{c['sweep']['key']},{c['sweep'].get('mode')},{c['sweep'].get('scheduler', '-')}")
@@ -929,7 +963,8 @@ def run(ctx: Ctx):
         if not ok:
             ctx.broken.append(Broken("theorem", "coqchk of Properties/C02.v", core.tail(out, 20)))
 
-    cases = gen_cases(ctx, ctx.budget(260, 1500), ctx.budget(1, 3), ctx.budget(40, 300), ctx.budget(8, 80))
+    cases = gen_cases(ctx, ctx.budget(260, 1500), ctx.budget(1, 3), ctx.budget(40, 300), ctx.budget(8, 80),
+                      ctx.budget(60, 400))
     mism, viol, pairs = evaluate(ctx, cases)
     distinct = set()
     for c, o in pairs:
@@ -985,7 +1020,7 @@ def replay(ctx: Ctx, rp: dict) -> int:
     except core.TranslationError:
         text = tr.FALLBACK
     (gen / "Gen_C02.v").write_text(text)
-    core.ensure_lib(ctx, targets=["theories/Model/Exposure.vo"])
+    core.ensure_lib(ctx, targets=["theories/Model/Exposure.vo", "theories/Model/ExposureF.vo"])
     core.coqc(ctx, gen / "Gen_C02.v", [(gen, "PyxelGen")])
     payload = {k: v for k, v in case.items() if k not in ("malformed", "path", "view", "sweep_value", "judge_all")}
     o = core.run_driver(ctx, "c02", [payload], workers=1)[0]
@@ -996,7 +1031,7 @@ def replay(ctx: Ctx, rp: dict) -> int:
         return 1
     base = {k: v for k, v in case.items() if k not in ("view", "sweep_value")}
     pairs = expand(base, o)       # the run, its second clock view, every pipeline of an Observation
-    ok, evals, se = core.coq_eval(ctx, "replay", emit_file(pairs))
+    ok, evals, se = core.coq_eval(ctx, "replay", emit_file(pairs, bool(case.get("float"))))
     if not ok or len(evals) != 2:
         print("case file did not evaluate:", core.tail(se, 10))
         return 1
